@@ -115,6 +115,20 @@ def family_backjump():
     return out
 
 
+def family_simplify():
+    """simplify_db on a clause of 4 or 5 literals one of which (each position in turn) became false at root level: the stored clause must keep
+    exactly the other literals, then two of them are decided false"""
+    out = []
+    for n in (4, 5):
+        for pos in range(1, n + 1):
+            rest = [v for v in range(1, n + 1) if v != pos]
+            out.append((n, [C(*range(1, n + 1))], [('clause1', L(-pos)), ('simplify',), ('check2', L(-rest[0]), L(-rest[1])), ('assume', L(-rest[0])), ('assume', L(-rest[1]))]))
+    # two false literals, and a satisfied clause next to it
+    out.append((5, [C(1, 2, 3, 4, 5), C(-1, 2, 3)], [('clause1', L(-3)), ('clause1', L(-4)), ('simplify',), ('assume', L(-1)), ('assume', L(-2))]))
+    out.append((5, [C(1, 2, 3, 4, 5), C(3, 4)], [('clause1', L(-2)), ('clause1', L(4)), ('simplify',), ('assume', L(-1)), ('assume', L(-3))]))
+    return out
+
+
 def family_small():
     """systematic: every set of 2 clauses (size <= 2) over 2 variables x every history of length 2 over {assume(+-b1), assume(+-b2), pop, next, check(+-b1)}"""
     lits = [(1, 1), (1, 0), (2, 1), (2, 0)]
@@ -131,6 +145,7 @@ def jobs(tier):
     scs = list(CURATED)
     fb = family_backjump()
     scs += fb[::2] if tier == 'quick' else fb
+    scs += family_simplify()
     if tier == 'quick':
         scs += sample(rng, 70, 3, 4, 4)
         scs += sample(rng, 30, 4, 5, 5)
